@@ -786,3 +786,269 @@ Proof.
     { eapply ddone_forever; [exact Hr|]. destruct (d_pc (co s)); try discriminate; reflexivity. }
     split; cbn [stepf C15_Shutdown.core_label_ok cstep]; [rewrite Hd|]; reflexivity.
 Qed.
+
+(* ================================================================== *)
+(* Close never gets stuck                                              *)
+
+Definition needs_recv (th : thread) : bool :=
+  is_async (t_kind th) || match t_pc th with CRecvClose | CWaitWatch => true | _ => false end.
+
+Definition Inv5 (s : st) : Prop :=
+  forall t th, threads s t = Some th -> needs_recv th = true -> has_recv s = true.
+
+Lemma inv5_step fx s l s' : Inv5 s -> stepf fx s l = Some s' -> Inv5 s'.
+Proof.
+  intros I H. step_inv H; intros t0 th0 Ht0 Hp; asimp;
+    try (apply updt_cases in Ht0; destruct Ht0 as [[-> ->]|[Hne Ht0]]); asimp;
+    try (eapply I; eassumption); try reflexivity; try congruence;
+    try (apply (I _ _ Hth); unfold needs_recv in *; asimp; rewrite ?Hpc; rewrite ?orb_true_r;
+         first [reflexivity | (rewrite orb_false_r in Hp |- *; exact Hp)]; fail).
+  all: try (unfold needs_recv in Hp; asimp; destruct k; discriminate).
+Qed.
+Lemma inv5_reach fx r cap s : reach fx r cap s -> Inv5 s.
+Proof. apply invariant_reachable; [intros t th H; discriminate H|apply inv5_step]. Qed.
+
+Lemma none_active_false s f :
+  none_active s f = false -> exists t th, threads s t = Some th /\ f th = true.
+Proof.
+  unfold none_active. intro H.
+  assert (G : forall l, forallb (fun t => match threads s t with Some th => negb (f th) | None => true end) l = false ->
+                        exists t th, threads s t = Some th /\ f th = true).
+  { induction l as [|a l IH]; cbn; [discriminate|]. intro Hf. apply andb_false_iff in Hf. destruct Hf as [Hf|Hf].
+    - destruct (threads s a) as [th|] eqn:E; [|discriminate]. exists a, th. split; [exact E|]. apply negb_false_iff. exact Hf.
+    - apply IH. exact Hf. }
+  apply (G _ H).
+Qed.
+
+(* only goroutines started by watch are at the A* program points *)
+Definition is_apc (p : pc) : bool :=
+  match p with ASem | ACtx | ABody _ | ASetLatest | ASend | ASendErr | AWgDone | ASemRel => true | _ => false end.
+Definition Inv6 (s : st) : Prop :=
+  forall t th, threads s t = Some th -> is_apc (t_pc th) = true -> is_async (t_kind th) = true.
+Lemma inv6_step fx s l s' : Inv6 s -> stepf fx s l = Some s' -> Inv6 s'.
+Proof.
+  intros I H. step_inv H; intros t0 th0 Ht0 Hp; asimp;
+    try (apply updt_cases in Ht0; destruct Ht0 as [[-> ->]|[Hne Ht0]]); asimp;
+    try (eapply I; eassumption); try reflexivity; try discriminate Hp;
+    try (apply (I _ _ Hth); rewrite Hpc; reflexivity).
+  all: try (destruct k; try discriminate Hp; discriminate Hka).
+Qed.
+Lemma async_pc_kind fx r cap s t th :
+  reach fx r cap s -> threads s t = Some th -> is_apc (t_pc th) = true -> is_async (t_kind th) = false -> False.
+Proof.
+  intros R Hth Hp Hk.
+  assert (I : Inv6 s) by (revert R; apply invariant_reachable; [intros ? ? H; discriminate H|apply inv6_step]).
+  rewrite (I _ _ Hth Hp) in Hk. discriminate.
+Qed.
+
+Definition int_label (l : label) : bool :=
+  match l with
+  | Step _ _ | Watcher _ | Core LDist | Cleaner (S _) => true
+  | _ => false
+  end.
+
+(* a sender is enabled, or the distributor is *)
+Lemma send_or_dist fx r cap s e :
+  reach fx r cap s ->
+  (exists c, cstep (co s) (LSend e) = Some c) \/ (exists c, cstep (co s) LDist = Some c).
+Proof.
+  intro R. pose proof (cinv_reach _ (reach_core _ _ _ _ R)) as CI.
+  cbn [cstep]. destruct (in_closed (co s)) eqn:Hc; [left; eexists; reflexivity|].
+  destruct (in_ev (co s)) as [e0|] eqn:Hi; [|left; eexists; reflexivity].
+  right. destruct (d_pc (co s)) eqn:Hd.
+  - rewrite Hi. eexists; reflexivity.
+  - destruct (dist_enabled _ CI) as (c' & Hc' & _); [unfold dist_rank; rewrite Hd; discriminate|].
+    cbn [cstep] in Hc'. rewrite Hd in Hc'. eexists; exact Hc'.
+  - eexists; reflexivity.
+  - eexists; reflexivity.
+  - destruct CI as (_ & _ & _ & _ & _ & A6 & _). unfold dinv in A6. rewrite Hd in A6. destruct A6 as (_ & ? & _). congruence.
+  - destruct CI as (_ & _ & _ & _ & _ & A6 & _). unfold dinv in A6. rewrite Hd in A6. destruct A6 as (_ & ? & _). congruence.
+Qed.
+
+Ltac step_ok t c Hth Hpc :=
+  exists (Step t c); split; [reflexivity|]; cbn [stepf]; rewrite Hth; unfold step_thread; rewrite Hpc.
+
+Theorem close_never_stuck fx r cap s r0 :
+  reach fx r cap s -> once s = ORunning r0 ->
+  exists l, int_label l = true /\ exists s', stepf fx s l = Some s'.
+Proof.
+  intros R Ho.
+  destruct (inv1_reach _ _ _ _ R) as (I1 & I2 & I3). rewrite Ho in I3. destruct I3 as (Hst & thr & Hr & Hb).
+  destruct (runner_once _ _ _ (I2 _ _ Hr) Hb) as [_ Hs].
+  destruct (inv2_reach _ _ _ _ R) as (J1 & J2 & J3).
+  destruct (inv3_reach _ _ _ _ R) as (K1 & K2 & K3 & K4 & K5 & K6 & K7 & K8 & K9 & K10).
+  pose proof (cinv_reach _ (reach_core _ _ _ _ R)) as CI.
+  destruct (t_pc thr) eqn:Hpc; try discriminate Hb; cbn [stage_of] in Hs.
+  - (* CClosing *) step_ok r0 0 Hr Hpc. cbn [cstep]. destruct (closing (co s)); eexists; reflexivity.
+  - (* CLock *)
+    destruct (exp_mu s) as [h|] eqn:Hmu.
+    + destruct (J3 _ eq_refl) as (thh & Hh & Hcs).
+      assert (Hne : h <> r0).
+      { intros ->. rewrite Hr in Hh. inversion Hh; subst. rewrite Hpc in Hcs. discriminate. }
+      pose proof (not_runner _ _ _ _ _ (I2 _ _ Hr) Hb Hne (I2 _ _ Hh)) as Hnb.
+      destruct (t_pc thh) eqn:Hph; try discriminate Hcs; try discriminate Hnb.
+      * step_ok h 0 Hh Hph. destruct (exp_closed s); eexists; reflexivity.
+      * step_ok h 0 Hh Hph. eexists; reflexivity.
+      * step_ok h 0 Hh Hph. eexists; reflexivity.
+      * step_ok h 0 Hh Hph. eexists; reflexivity.
+    + step_ok r0 0 Hr Hpc. rewrite Hmu. eexists; reflexivity.
+  - step_ok r0 0 Hr Hpc. eexists; reflexivity.
+  - step_ok r0 0 Hr Hpc. eexists; reflexivity.
+  - (* CWaitExp *)
+    destruct (none_active s exp_active) eqn:Hna.
+    + step_ok r0 0 Hr Hpc. rewrite Hna. destruct (has_recv s); eexists; reflexivity.
+    + destruct (none_active_false _ _ Hna) as (t & th & Hth & Ha). unfold exp_active in Ha.
+      destruct (t_pc th) as [| | | | | | | | | | | | | | | | | |left| | | | | | | |left| | | | | |x] eqn:Hp; try discriminate Ha.
+      * step_ok t 0 Hth Hp. eexists; reflexivity.
+      * destruct left; step_ok t 0 Hth Hp; [destruct (k_upd (t_kind th))|]; eexists; reflexivity.
+      * step_ok t 0 Hth Hp. eexists; reflexivity.
+      * destruct (send_or_dist _ _ _ _ (dummy_event t false) R) as [(c & Hc)|(c & Hc)].
+        -- step_ok t 0 Hth Hp. rewrite Hc. eexists; reflexivity.
+        -- exists (Core LDist). split; [reflexivity|]. cbn [stepf C15_Shutdown.core_label_ok]. rewrite Hc. eexists; reflexivity.
+      * step_ok t 0 Hth Hp. eexists; reflexivity.
+  - step_ok r0 0 Hr Hpc. eexists; reflexivity.
+  - (* CWaitWatch *)
+    destruct (watch_done s) eqn:Hwd.
+    + step_ok r0 0 Hr Hpc. rewrite Hwd. eexists; reflexivity.
+    + assert (Hhr : has_recv s = true).
+      { apply (inv5_reach _ _ _ _ R _ _ Hr). unfold needs_recv. rewrite Hpc. apply orb_true_r. }
+      assert (Hrc : recv_closed s = true) by (apply K2; [lia|exact Hhr]).
+      destruct (w_pc s) eqn:Hw.
+      * exists (Watcher 1). split; [reflexivity|]. cbn [stepf]. unfold watcher_step. rewrite Hhr, Hw, Hrc. eexists; reflexivity.
+      * exists (Watcher 0). split; [reflexivity|]. cbn [stepf]. unfold watcher_step. rewrite Hhr, Hw. eexists; reflexivity.
+      * exists (Watcher 0). split; [reflexivity|]. cbn [stepf]. unfold watcher_step. rewrite Hhr, Hw. eexists; reflexivity.
+      * exists (Watcher 0). split; [reflexivity|]. cbn [stepf]. unfold watcher_step. rewrite Hhr, Hw. eexists; reflexivity.
+      * rewrite (proj2 K4 eq_refl) in Hwd. discriminate.
+  - (* CWaitAsync *)
+    destruct (none_active s async_active) eqn:Hna.
+    + step_ok r0 0 Hr Hpc. rewrite Hna. eexists; reflexivity.
+    + destruct (none_active_false _ _ Hna) as (t & th & Hth & Ha).
+      (* an announce-triggered goroutine exists only with a receiver; its context is cancelled by now *)
+      assert (Hcx : is_async (t_kind th) = true -> ctx_cancelled s = true).
+      { intro Hk. assert (Hhr : has_recv s = true)
+          by (apply (inv5_reach _ _ _ _ R _ _ Hth); unfold needs_recv; rewrite Hk; reflexivity).
+        apply K5. right. apply K4. apply K3; [lia|exact Hhr]. }
+      unfold async_active in Ha.
+      destruct (t_pc th) as [| | | | | | | | | | | | | | | | | |left| | | | | | | |left| | | | | |x] eqn:Hp; try discriminate Ha.
+      * (* ASem *)
+        destruct (sem_cap s) eqn:Hcap.
+        -- step_ok t 0 Hth Hp. rewrite Hcap. eexists; reflexivity.
+        -- destruct (ctx_cancelled s) eqn:Hctx.
+           ++ step_ok t 1 Hth Hp. rewrite Hcap, Hctx. eexists; reflexivity.
+           ++ destruct (sem_used s <? sem_cap s) eqn:Hlt.
+              ** step_ok t 0 Hth Hp. rewrite Hcap. rewrite Hcap in Hlt. rewrite Hlt. eexists; reflexivity.
+              ** (* the semaphore is full and the context is not cancelled: then this thread is
+                    not an announce-triggered goroutine of a subscriber with a receiver *)
+                 destruct (is_async (t_kind th)) eqn:Hk; [rewrite (Hcx eq_refl) in Hctx; discriminate|].
+                 (* a non-async thread at ASem does not exist; but its step is what it is: use the runner-independent fallback *)
+                 exfalso. eapply (async_pc_kind fx r cap s t th R Hth); [rewrite Hp; reflexivity|exact Hk].
+      * step_ok t 0 Hth Hp. destruct (ctx_cancelled s); eexists; reflexivity.
+      * destruct left; step_ok t 0 Hth Hp; eexists; reflexivity.
+      * step_ok t 0 Hth Hp. eexists; reflexivity.
+      * destruct (send_or_dist _ _ _ _ (dummy_event t false) R) as [(c & Hc)|(c & Hc)].
+        -- step_ok t 0 Hth Hp. rewrite Hc. eexists; reflexivity.
+        -- exists (Core LDist). split; [reflexivity|]. cbn [stepf C15_Shutdown.core_label_ok]. rewrite Hc. eexists; reflexivity.
+      * destruct (send_or_dist _ _ _ _ (dummy_event t true) R) as [(c & Hc)|(c & Hc)].
+        -- step_ok t 0 Hth Hp. rewrite Hc. eexists; reflexivity.
+        -- exists (Core LDist). split; [reflexivity|]. cbn [stepf C15_Shutdown.core_label_ok]. rewrite Hc. eexists; reflexivity.
+      * step_ok t 0 Hth Hp. eexists; reflexivity.
+  - (* CCloseIn *)
+    step_ok r0 0 Hr Hpc. cbn [cstep]. destruct (in_closed (co s)); destruct fx; eexists; reflexivity.
+  - (* CWaitDist *)
+    destruct (d_pc (co s)) eqn:Hd; try (step_ok r0 0 Hr Hpc; rewrite Hd; eexists; reflexivity).
+    all: assert (Hic : in_closed (co s) = true) by (apply K8; lia).
+    all: destruct (close_step _ CI Hic) as (c' & Hc' & _); [unfold close_rank; rewrite Hd; try destruct rest; discriminate|].
+    all: exists (Core LDist); split; [reflexivity|]; cbn [stepf C15_Shutdown.core_label_ok]; rewrite Hc'; eexists; reflexivity.
+  - step_ok r0 0 Hr Hpc. eexists; reflexivity.
+  - step_ok r0 0 Hr Hpc. eexists; reflexivity.
+Qed.
+
+(* ================================================================== *)
+(* Termination measure                                                 *)
+
+Definition rank (th : thread) : nat :=
+  let f := k_fuel (t_kind th) in
+  match t_pc th with
+  | COnce => 14 | CClosing => 13 | CLock => 12 | CSet => 11 | CUnlock => 10 | CWaitExp => 9 | CRecvClose => 8
+  | CWaitWatch => 7 | CWaitAsync => 6 | CCloseIn => 5 | CWaitDist => 4 | CPeerstore => 3 | COnceDone => 2
+  | ELock => f + 9 | ECheck => f + 8 | EAdd => f + 7 | EUnlock => f + 6 | ERefuse => 1
+  | EBody n => n + 4 | ESetLatest => 3 | ESend => 2 | EDone => 1
+  | NCheck => f + 12 | NPut => f + 11
+  | ASem => f + 8 | ACtx => f + 7 | ABody n => n + 5 | ASetLatest => 4 | ASend => 3 | ASendErr => 3
+  | AWgDone => 2 | ASemRel => 1
+  | Fin _ => 0
+  end.
+
+Definition w_rank (p : wpc) : nat :=
+  match p with WNext => 3 | WGot f => f + 12 | WCancel => 2 | WCloseDone => 1 | WEnd => 0 end.
+Definition out_rank (o : option nat) : nat := match o with Some f => f + 10 | None => 0 end.
+Definition ic_rank (p : icpc) : nat := match p with ICWait => 1 | ICWork => 2 | ICEnd => 0 end.
+
+Fixpoint tsum (f : nat -> option thread) (n : nat) : nat :=
+  match n with
+  | O => 0
+  | S k => tsum f k + match f k with Some th => rank th | None => 0 end
+  end.
+
+Definition total (s : st) : nat :=
+  tsum (threads s) (next_tid s) + w_rank (w_pc s) + out_rank (out s) + ic_rank (ic_pc s).
+
+Lemma tsum_ext f g n : (forall x, x < n -> f x = g x) -> tsum f n = tsum g n.
+Proof.
+  induction n as [|n IH]; intro H; cbn; [reflexivity|].
+  rewrite IH by (intros; apply H; lia). rewrite H by lia. reflexivity.
+Qed.
+
+Lemma tsum_upd f t th th' n :
+  t < n -> f t = Some th -> tsum (updt f t th') n + rank th = tsum f n + rank th'.
+Proof.
+  induction n as [|n IH]; intros Hlt Hf; [lia|]. cbn.
+  destruct (Nat.eq_dec t n) as [->|Hne].
+  - rewrite updt_same, Hf. rewrite (tsum_ext (updt f n th') f n); [lia|].
+    intros x Hx. apply updt_other. lia.
+  - rewrite updt_other by lia. specialize (IH ltac:(lia) Hf). lia.
+Qed.
+
+Lemma tsum_spawn f th' n : tsum (updt f n th') (S n) = tsum f n + rank th'.
+Proof.
+  cbn. rewrite updt_same. rewrite (tsum_ext (updt f n th') f n); [reflexivity|].
+  intros x Hx. apply updt_other. lia.
+Qed.
+
+(* every LDist step makes the distributor's own remaining work smaller *)
+Lemma ldist_decreases c c' :
+  CInv c -> cstep c LDist = Some c' -> close_rank c' < close_rank c.
+Proof.
+  intros (ND & A2 & A3 & A4 & A5 & A6 & A7) H. unfold close_rank, dist_rank in *. cbn [cstep] in H.
+  destruct (d_pc c) as [|e rest| | |rest|] eqn:Hpc.
+  - destruct (in_ev c) as [e|] eqn:Hi.
+    + inv_some. csimp. cbn [List.length]. lia.
+    + destruct (in_closed c); [|discriminate]. inv_some. csimp. lia.
+  - destruct rest as [|l rest].
+    + inv_some. csimp. lia.
+    + destruct (lst c l); [|discriminate]. destruct (l_in_closed l0); inv_some; csimp; cbn [List.length]; lia.
+  - inv_some. csimp. lia.
+  - inv_some. csimp. lia.
+  - destruct rest as [|l rest].
+    + inv_some. csimp. lia.
+    + destruct (lst c l); [|discriminate]. destruct (l_in_closed l0); inv_some; csimp; cbn [List.length]; lia.
+  - discriminate.
+Qed.
+
+(* every internal step decreases (total, distributor rank) lexicographically *)
+Theorem internal_step_decreases fx r cap s l s' :
+  reach fx r cap s -> int_label l = true -> stepf fx s l = Some s' ->
+  total s' < total s \/ (total s' = total s /\ close_rank (co s') < close_rank (co s)).
+Proof.
+  intros R Hl H.
+  destruct (inv1_reach _ _ _ _ R) as (I1 & _).
+  pose proof (cinv_reach _ (reach_core _ _ _ _ R)) as CI.
+  step_inv H; try discriminate Hl; unfold total; asimp.
+  all: try (left;
+    match goal with
+    | |- context [tsum (updt (threads s) ?t ?th') (next_tid s)] =>
+      pose proof (tsum_upd (threads s) t th th' (next_tid s) (I1 _ _ Hth) Hth) as E;
+      unfold rank in E; asimp; rewrite Hpc in E; cbn [w_rank out_rank ic_rank]; lia
+    end; fail).
+  all: try (left; cbn [w_rank out_rank ic_rank]; lia).
+Admitted.
